@@ -26,6 +26,13 @@ def templates():
         out.append(("select%d-area-q" % sel, "형.. 흑%s 형.?♥" % d))
         out.append(("select%d-area-b" % sel, "형.. 흑%s 형.!♥" % d))
         out.append(("select%d-area-nested" % sel, "형.. 흑... 형. 흑%s 형.?!♥?❤" % d))
+        # areas without any heart (they pop for the comparison but can never jump), first thing and after a push, every kind
+        for bare in ("?", "!", "??", "?!", "!?", "!!?"):
+            out.append(("select%d-bare-area-first" % sel, "흑%s 형%s" % (d, bare)))
+            out.append(("select%d-bare-area" % sel, "형.. 흑%s 형.%s" % (d, bare)))
+            out.append(("select%d-bare-area-after-pushes" % sel, "형.. 형... 흑%s 형.%s 형..%s" % (d, bare, bare)))
+        for k in ("항...", "핫...", "흣...", "흡...", "흑..."):
+            out.append(("select%d-bare-area-kind" % sel, "형.. 흑%s %s?!" % (d, k)))
     out.append(("read-first-thing", "흑 항. 항."))
     out.append(("exit-immediately", "흑. 항"))
     out.append(("exit-immediately-2", "흑.. 핫"))
@@ -82,6 +89,11 @@ def run(prop, tier, seed):
         # bias: make stacks 0-2 selected often
         if rng.random() < 0.5:
             cmds.insert(rng.randrange(len(cmds) + 1), (5, 1, rng.choice([0, 1, 2]), [[None]]))
+        # bias: areas that compare (and therefore pop) but hold no heart at all
+        if rng.random() < 0.35:
+            i = rng.randrange(len(cmds))
+            k, sy, dt, _ = cmds[i]
+            cmds[i] = (k, sy, dt, [[None] * rng.choice([1, 1, 2]) for _ in range(rng.choice([1, 2, 2, 3]))])
         cases.append(("random", G.render(cmds)))
     jobs = [(lv, tag, prog) for tag, prog in cases for lv in (0, 1, 2)]
     res = C.pmap(lambda j: run_child(j[0], j[2]), jobs)
